@@ -49,6 +49,27 @@ Section EditSpecProofs.
 
   (* ---- execution --------------------------------------------------------------------- *)
 
+  (* no law of eqb needed: the output is rhs, position by position either the very element (Copy,
+     Replace) or an equivalent one (Emit) *)
+  Theorem Valid_exec_gen : forall es l r,
+      Valid l r es ->
+      consumed es = l /\ Forall2 (fun a b => a = b \/ eqb a b = true) (produced es) r.
+  Proof.
+    assert (Hid : forall y : list T, Forall2 (fun a b => a = b \/ eqb a b = true) y y)
+      by (induction y; constructor; auto).
+    induction es as [|e es IH]; intros l r H; cbn in *.
+    - destruct H as [-> ->]. split; [reflexivity | constructor].
+    - destruct (eop e).
+      + destruct H as (l' & -> & Hy & H). destruct (IH _ _ H) as [<- H2]. auto.
+      + destruct H as (l' & y & r' & -> & -> & Hy & Hf & H). destruct (IH _ _ H) as [<- H2].
+        split; [reflexivity|]. apply Forall2_app; [|assumption].
+        clear -Hf. induction Hf; constructor; auto.
+      + destruct H as (r' & -> & Hx & H). destruct (IH _ _ H) as [<- H2].
+        split; [reflexivity|]. apply Forall2_app; [apply Hid | assumption].
+      + destruct H as (l' & r' & -> & -> & H). destruct (IH _ _ H) as [<- H2].
+        split; [reflexivity|]. apply Forall2_app; [apply Hid | assumption].
+  Qed.
+
   Section Exec.
   Hypothesis eqb_refl : forall x, eqb x x = true.
 
